@@ -564,11 +564,15 @@ def interpret_as_list(value: str) -> List[str]:
     if content is not None:
         # string includes square brackets
         vals_string = content.group("attributes")
-        content_list = [v.strip() for v in vals_string.split(",")]
-
     else:
         # value is not inside square brackets
-        content_list = [v.strip() for v in value.split(",")]
+        vals_string = value
+
+    if vals_string.strip() == "":
+        # an empty list, not a list with one empty string
+        return []
+
+    content_list = [v.strip() for v in vals_string.split(",")]
 
     return content_list
 
